@@ -663,7 +663,7 @@ def validate_streams(ctx, cases, mode, tag, sig_prefix=None, timeout=3000, alter
         if baseline is not None and (oid not in baseline or any(b in rejected for b in baseline[oid])):
             ctx.extra['deviations_left_to_other_checks'] = ctx.extra.get('deviations_left_to_other_checks', 0) + 1
             continue
-        if own is not None and not own(cl, a.abs['cls'] if a else '?'):
+        if own is not None and not os.environ.get('VERIF_ALL_CLAUSES') and not own(cl, a.abs['cls'] if a else '?'):
             ctx.extra['deviations_left_to_other_checks'] = ctx.extra.get('deviations_left_to_other_checks', 0) + 1
             continue
         name = (a.name or hex(a.debugid)) if a else None
